@@ -83,6 +83,38 @@ CODE = """
     }
 """
 
+M2_CODE = """
+    use crate::images::{TypedImage, TypedImageRef};
+    use crate::pixels::{U8x2, U16x2, F32x2, I32, U16};
+
+    fn m2_run(dw: u32, dh: u32) {
+        let sp: [u8; 8] = kani::any();
+        let src: [U8x2; 4] = core::array::from_fn(|i| U8x2::new([sp[2 * i], sp[2 * i + 1]]));
+        let mut dst = [U16x2::new([7, 9]); 5];
+        let r;
+        {
+            let s = TypedImageRef::new(2, 2, &src).unwrap();
+            let mut d = TypedImage::from_pixels_slice(dw, dh, &mut dst).unwrap();
+            r = change_type_of_pixel_components_typed(&s, &mut d);
+        }
+        assert!(r.is_ok() == (dw == 2 && dh == 2));
+        if r.is_ok() {
+            for i in 0..4 {
+                let want: [u16; 2] = [sp[2 * i].into_component(), sp[2 * i + 1].into_component()];
+                assert!(dst[i].0 == want);
+            }
+            assert!(dst[4].0 == [7, 9]);
+        } else {
+            for i in 0..5 { assert!(dst[i].0 == [7, 9]); }   // rejected: destination untouched
+        }
+    }
+    #[kani::proof] #[kani::unwind(8)] fn m2_same_size() { m2_run(2, 2) }
+    #[kani::proof] #[kani::unwind(8)] fn m2_width_differs() { m2_run(1, 2) }
+    #[kani::proof] #[kani::unwind(8)] fn m2_height_differs() { m2_run(2, 1) }
+    #[kani::proof] #[kani::unwind(8)] fn m2_both_differ() { m2_run(1, 1) }
+    #[kani::proof] #[kani::unwind(8)] fn m2_zero_height() { m2_run(2, 0) }
+"""
+
 HS = [dict(name=n, kind="complete", covers=1, timeout=600, claim="%s -> %s conversion is monotone non-decreasing on its whole domain (NaN excluded)" % (s, d))
       for n, s, d in [("m1_mono_u8_u16", "u8", "u16"), ("m1_mono_u8_i32", "u8", "i32"), ("m1_mono_u8_f32", "u8", "f32"),
                       ("m1_mono_u16_u8", "u16", "u8"), ("m1_mono_u16_i32", "u16", "i32"), ("m1_mono_u16_f32", "u16", "f32"),
@@ -99,10 +131,15 @@ UNIT = dict(
     id="M1",
     title="IntoPixelComponent: endpoints, monotonicity, saturation, lossless widening for all 12 conversions",
     kani=dict(
-        functions=[dict(file=F, fn="into_component", within=r"impl IntoPixelComponent<%s> for %s" % (d, s))
+        functions=[dict(file="src/change_components_type.rs", fn="change_type_of_pixel_components_typed")] + [dict(file=F, fn="into_component", within=r"impl IntoPixelComponent<%s> for %s" % (d, s))
                    for s, d in [("u8", "u16"), ("u8", "i32"), ("u8", "f32"), ("u16", "u8"), ("u16", "i32"), ("u16", "f32"),
                                 ("i32", "u8"), ("i32", "u16"), ("i32", "f32"), ("f32", "u8"), ("f32", "u16"), ("f32", "i32")]],
-        modules=[dict(file=F, name="fv_m1", code=CODE)],
-        harnesses=HS,
+        modules=[dict(file=F, name="fv_m1", code=CODE), dict(file="src/change_components_type.rs", name="fv_m2", code=M2_CODE)],
+        harnesses=HS + [dict(name=n, kind="bounded", timeout=600, bound="src 2x2 U8x2 (all contents), dst U16x2 of the stated size with one spare pixel", claim=c) for n, c in [
+            ("m2_same_size", "every destination component is into_component of the source component; spare pixel untouched"),
+            ("m2_width_differs", "different width (same height) is rejected, destination untouched"),
+            ("m2_height_differs", "different height (same width) is rejected, destination untouched"),
+            ("m2_both_differ", "different size is rejected, destination untouched"),
+            ("m2_zero_height", "a zero-height destination of the same width is rejected, destination untouched")]],
     ),
 )
